@@ -1418,6 +1418,7 @@ def scatter_model(chk):
             else:
                 m["other_stores"].append(ev)
                 m["why"] = m["why"] or f"store `{src(ev.node)[:60]}` into the result not modelled"
+    m["evals"] = evals
     if m["buffered"]:
         try:
             _compose_folds(chk, m)
@@ -2354,6 +2355,87 @@ class _Quiet:
         return None
 
 
+_FLOAT64 = {"float", "np.float64", "numpy.float64", "np.double", "np.float_", "'float64'", "'float'", "'d'", "'f8'", "np.dtype(float)",
+            "np.dtype('float64')", "np.dtype(np.float64)"}
+_NOT_FLOAT64 = {"int", "bool", "np.float32", "np.float16", "np.single", "np.half", "np.int32", "np.int64", "np.int_", "np.intp", "np.bool_",
+                "'float32'", "'f4'", "'f'", "'int'", "'i4'", "'i8'", "'bool'", "np.uint8", "np.int8", "np.int16"}
+
+
+def scratch_dtype(chk):
+    """F7-scratch-dtype: the work array that eval_vector fills with the spline values (float64) holds them unchanged, i.e. it is a
+    float64 array whatever the arrays handed to parallel_gradient are.  numpy casts on assignment into an existing array without a
+    word (float64 -> float32 rounds, -> integer truncates, -> bool collapses), so a scratch array whose dtype is taken from an argument
+    makes the accumulated gradient depend on the dtype of that argument.
+    VIOLATED only when: the buffer is a local allocated in parallel_gradient by one of the numpy allocators (the flow model records
+    exactly these), it is the output argument of a `self._thetaSpline.eval_vector` call, and its dtype is established as not float64:
+    a `*_like(x)` allocation without dtype whose prototype x is (a view of) the potential handed in by the caller (its dtype is the
+    caller's: float32 / integer potentials are legal), `dtype=<potential>.dtype`, or an explicit narrower dtype.  Prototypes whose dtype
+    this rule does not know (the result array, an attribute) are UNDECIDED."""
+    m = scatter_model(chk)
+    fl = m["flow"]
+    fn = m["fn"]
+    where = dict(file=U.ADV, func=f"{CLS}.parallel_gradient")
+    params = [a.arg for a in fn.args.args][1:]
+    # the potential: the parameter whose rows are interpolated (compute_interpolant's first argument), not the result
+    pot = {"P_phi_r"} if "phi_r" in params else set()
+
+    def root(e):
+        while isinstance(e, (ast.Subscript, ast.Attribute)) and not (isinstance(e, ast.Attribute) and src(e).startswith("self.")):
+            if isinstance(e, ast.Attribute) and e.attr not in ("T", "real"):
+                return None
+            e = e.value
+        return e
+
+    for buf, rec in sorted(m.get("evals", {}).items()):
+        alloc = fl.buffers.get(buf)
+        if alloc is None:
+            continue
+        aname = src(alloc.func).split(".")[-1]
+        what = f"scratch `{src(alloc)[:60]}` filled by eval_vector is float64"
+        kws = {k.arg: k.value for k in alloc.keywords}
+        if None in kws or any(isinstance(a, ast.Starred) for a in alloc.args):
+            chk.ob("F7-scratch-dtype", alloc, what, None, "arguments handed over by * / ** expansion: dtype not followed", **where)
+            continue
+        dt = kws.get("dtype")
+        like = aname.endswith("_like")
+        pos = {"empty": 1, "zeros": 1, "ones": 1, "ndarray": 1, "full": 2, "empty_like": 1, "zeros_like": 1, "ones_like": 1, "full_like": 2}
+        if dt is None and aname in pos and len(alloc.args) > pos[aname]:
+            dt = alloc.args[pos[aname]]
+        ok, why = None, None
+        if dt is not None:
+            t = src(dt).replace('"', "'")
+            if t in _FLOAT64:
+                ok, why = True, f"allocated with dtype {t}"
+            elif t in _NOT_FLOAT64:
+                ok, why = False, (f"the scratch array is allocated with dtype {t}: the float64 spline values written into it by eval_vector "
+                                  "are cast (rounded / truncated) before they are weighted and accumulated into the gradient")
+            elif isinstance(dt, ast.Attribute) and dt.attr == "dtype" and isinstance(root(dt.value), ast.Name) and root(dt.value).id in pot:
+                ok, why = False, (f"the scratch array takes the dtype of the potential handed in (`{src(dt)}`): for a potential that is not "
+                                  "float64 (single precision, integer or boolean valued field - all legal, the result array is float64) "
+                                  "the float64 spline values are cast to that dtype on assignment inside eval_vector (rounded to single "
+                                  "precision / truncated to integers) before they are accumulated: the gradient loses its accuracy")
+            else:
+                why = f"dtype `{src(dt)[:50]}` of the scratch array is not one this rule knows"
+        elif like:
+            proto = alloc.args[0] if alloc.args else kws.get("prototype", kws.get("a"))
+            r = root(proto) if proto is not None else None
+            if isinstance(r, ast.Name) and r.id in pot:
+                ok, why = False, (f"`{src(alloc)[:70]}` allocates the scratch array with the dtype of the potential handed in by the caller "
+                                  "instead of float64: for a potential that is not float64 (read from a single-precision file, an integer or "
+                                  "boolean valued field - all legal, the result array is float64) the float64 spline values are cast to that "
+                                  "dtype on assignment inside eval_vector (rounded to single precision, truncated to integers, collapsed to "
+                                  "0/1) before they are weighted and accumulated: the gradient is no longer the finite-difference formula "
+                                  "applied to the interpolated values")
+            else:
+                why = (f"the scratch array inherits the dtype of `{src(proto)[:50] if proto is not None else '?'}`, which this rule does not "
+                       "know to be float64")
+        elif aname in ("empty", "zeros", "ones", "ndarray"):
+            ok, why = True, "numpy's default dtype (float64)"
+        else:
+            why = f"dtype produced by `{aname}` depends on its fill value: not followed"
+        chk.ob("F7-scratch-dtype", alloc if hasattr(alloc, "lineno") else fn, what, ok, why, **where)
+
+
 def run(chk):
     chk.explanation = (
         "Finite-difference moment system (e_1 right-hand side, consecutive shifts centred for even order, Vandermonde rows) by "
@@ -2380,6 +2462,13 @@ def run(chk):
     m = regimes(chk)
     if m:
         gradient_formula(chk, m)
+    try:
+        scratch_dtype(chk)
+    except AnalysisError:
+        raise
+    except Exception as e:          # noqa: BLE001 - undecided, never an alarm
+        chk.ob("F7-scratch-dtype", chk.func(U.ADV, f"{CLS}.parallel_gradient"), "scratch filled by eval_vector is float64", None,
+               f"allocation of the scratch array not followed: {type(e).__name__}: {e}", file=U.ADV, func=f"{CLS}.parallel_gradient")
     sibling_geometry(chk)
     pg_attrs, pg_summ = pg_index_spaces(chk)
     # the grid-level caller hands parallel_gradient the index space its tables need
